@@ -156,6 +156,10 @@ def check_literal_index(idx):
 
 # ---------------------------------------------------------------- programs
 EXTRA_PROGRAMS = {
+    'float_operands': 'x! = 0.123456789!\ny! = 3.141592653589793\n'
+                      'z! = 1 / 3\nw! = 16777215\nv! = 3.141592653589793#\n'
+                      'u# = 0.1#\nt# = 1 / 3#\ns! = 123456.789\n'
+                      'PRINT x!; y!; z!; w!; v!; u#; t#; s!; 1E-5; 2.5D+100\n',
     'cp437_literals': 'PRINT "\u00e9\u00df\u2591\u00ff"; ""; "' + 'x' * 255
                       + '"\nPRINT "a"; "a"; "b"\n',
     'data_layouts': 'DATA 1, , "a,b", \u00e9, ""\nlab1:\nDATA\nDATA ,\n'
@@ -237,6 +241,46 @@ def check_program(text, cfg):
     dl = _dis_lines(module.code, module.literals)
     if [(a, o) for a, o, _ in dl] != [(a, o) for a, o, _ in dec]:
         return 'disassembler disagrees with decoder'
+    # ... and the same operands, compared as typed values (a SINGLE as
+    # the 32-bit value stored in the code, not as text)
+    import struct as _st
+
+    def _same(tchar, text, value):
+        try:
+            if tchar in '%&':
+                return int(text) == value
+            if tchar == '!':
+                return _st.pack('>f', float(text)) == _st.pack('>f', value)
+            if tchar == '#':
+                return _st.pack('>d', float(text)) == _st.pack('>d', value)
+        except (ValueError, OverflowError):
+            return False
+        return True
+    lst = []
+    for ln in str(code).split('.code\n\n')[1].split('\n'):
+        ln = ln.strip()
+        if ln and not ln.endswith(':'):
+            parts = ln.split(None, 1)
+            lst.append((parts[0], parts[1].strip() if len(parts) > 1
+                        else ''))
+    for k, ((addr, op, operands), (_, _, dtext)) in enumerate(zip(dec, dl)):
+        if op.startswith('push') and op[-1] in '%&!#' and \
+                len(operands) == 1:
+            if not _same(op[-1], dtext, operands[0]):
+                return 'disassembler shows %s %s at %d, the code holds %r' \
+                    % (op, dtext, addr, operands[0])
+            if k < len(lst) and not _same(op[-1], lst[k][1], operands[0]):
+                return 'listing shows %s %s, the code holds %r at %d' % (
+                    op, lst[k][1], operands[0], addr)
+        elif operands and all(isinstance(o, int) for o in operands) and \
+                op not in ('jmp', 'jz', 'call', 'errhand', 'io'):
+            shown = [x for x in dtext.split(',') if x != '']
+            try:
+                if [int(x) for x in shown] != list(operands):
+                    return 'disassembler shows %s %s at %d, the code ' \
+                        'holds %r' % (op, dtext, addr, operands)
+            except ValueError:
+                pass        # symbolic rendering (names): not compared
     # listing
     listing = []
     for ln in str(code).split('.code\n\n')[1].split('\n'):
